@@ -59,7 +59,12 @@ LOADERS = {
     "include": "{%% include '%s' %%}", "extends": "{%% extends '%s' %%}", "embed": "{%% embed '%s' %%}{%% endembed %%}",
     "import": "{%% import '%s' as m %%}", "from": "{%% from '%s' import a %%}", "use": "{%% extends 'ok' %%}{%% use '%s' %%}",
 }
-BAD = ["{% if %}", "a\n{{ 1 + }}", "{% foo %}", "x{% block b %}", "{{ 'unclosed }}"]
+BAD = ["{% if %}", "a\n{{ 1 + }}", "{% foo %}", "x{% block b %}", "{{ 'unclosed }}",
+       # what stands where a name is expected: in a for tag, after is / is not, and the word after the sequence of a for tag
+       "line one\n{% for k, 5 in items %}{% endfor %}", "{% for 1 in items %}{% endfor %}", "a\nb {{ a is 5 }}", "{{ a is not 'x' }}",
+       "{% for v in items\n  unless %}{% endfor %}",
+       # a malformed print between the blocks of an embed
+       "{% embed 'ok' %}\n{{ a 5 }}{% block b %}x{% endblock %}{% endembed %}", "{% embed 'ok' %}{{ }}{% endembed %}"]
 
 
 def named_cases():
